@@ -124,7 +124,7 @@ pub fn generate(g: &mut G, index: u64) -> Scenario {
             ops.push(Op::Sleep(period * g.range(3, 5) + period / 2));
             ops.push(Op::Call { h: 0, id: g.id(), work: vec![] });
         }
-        let shapes: Vec<u32> = if owning { vec![0, 1, 2, 3, 4, 5, 6] } else if restartable { vec![0, 5, 6, 7] } else { vec![0, 5, 7] };
+        let shapes: Vec<u32> = if owning { vec![0, 1, 2, 3, 4, 5, 6, 8, 9] } else if restartable { vec![0, 5, 6, 7] } else { vec![0, 5, 7] };
         match g.pick(&shapes) {
             0 => {
                 ops.push(Op::Stop { h: 0 });
@@ -166,6 +166,22 @@ pub fn generate(g: &mut G, index: u64) -> Scenario {
                 ops.push(Op::Sleep(3));
                 ops.push(Op::Upgrade { h: 1, to: 2 });
                 ops.push(Op::QueryStopped { h: 1 });
+            }
+            8 => {
+                // a join that is begun and abandoned is not a stop request
+                ops.push(Op::CancelAfter { polls: 1, op: Box::new(Op::Join { h: 0 }) });
+                ops.push(Op::Yield(3));
+                ops.push(Op::Call { h: 0, id: g.id(), work: vec![] });
+                ops.push(Op::Stop { h: 0 });
+                ops.push(Op::Await { h: 0, on_clone: true });
+            }
+            9 => {
+                // the join future outlives the owning address
+                ops.push(Op::Send { h: 0, id: g.id(), work: vec![] });
+                if g.chance(1, 2) {
+                    ops.push(Op::Stop { h: 0 });
+                }
+                ops.push(Op::DropThenJoin { h: 0 });
             }
             6 => {
                 ops.push(Op::Restart { h: 0 });
